@@ -9,6 +9,7 @@ from spec.families import programs
 from vlib import engine_t, trun
 
 PERF = "$PERFORMANCE_PROGRESS_LIST"
+DECOMPILE_TIMEOUT = 15
 DMODES = ("DMODE_CLOSE", "DMODE_OPEN", "DMODE_REQUEST", "DMODE_OPEN_AND_REQUEST")
 
 
@@ -38,9 +39,19 @@ def decompile(routine_infos: list[Any], routine_ops: list[list[Any]], named: lis
     from explorerscript.ssb_converting.ssb_decompiler import ExplorerScriptSsbDecompiler
     from explorerscript.ssb_converting.ssb_data_types import SsbCoroutine, DungeonModeConstants
 
+    import signal
+    import time
+
     coros = [SsbCoroutine(i, n) for i, n in enumerate(named) if isinstance(n, str)]
     d = ExplorerScriptSsbDecompiler(routine_infos, routine_ops, coros, PERF, DungeonModeConstants(*DMODES))
-    return d.convert()
+    # the decompiler gets its own (short) share of the task's time limit: its known failure mode is non-termination
+    t0 = time.time()
+    prev = signal.alarm(DECOMPILE_TIMEOUT) if signal.getsignal(signal.SIGALRM) not in (signal.SIG_DFL, signal.SIG_IGN, None) else 0
+    try:
+        return d.convert()
+    finally:
+        if prev:
+            signal.alarm(max(1, int(prev - (time.time() - t0))))
 
 
 def norm_label(lab: Any) -> Any:
